@@ -11,7 +11,7 @@ from .tok import Tok, T, tokenize, match_table, ExtractError, find_seq, find_all
 CFG_TRUE = {"unix", 'target_os="linux"', 'feature="serde"', 'feature="fromstr"', 'feature="miette"'}
 CFG_FALSE = {"windows", "test", "kani", 'target_os="vxworks"', 'feature="full_debug"', 'target_os="macos"',
              'target_os="freebsd"', 'target_os="windows"', 'target_os="illumos"', 'target_os="solaris"', "doc", "debug_assertions",
-             'feature="notify"', 'watchexec_verif'}
+             'feature="notify"', 'watchexec_verif', 'feature="serialization-compat-6"'}
 
 def eval_cfg(toks):
     """evaluate the token list of a cfg predicate"""
